@@ -87,7 +87,7 @@ def flatten(prog: dict, ext_default=("SUCCEEDED",)):
 
     walk(prog["nodes"], "", 0)
     base("END", "", 0, large=bool(prog.get("final_large") or prog.get("final_raise_large")),
-         raises=bool(prog.get("final_raise") or prog.get("final_raise_large")))
+         raises=bool(prog.get("final_raise") or prog.get("final_raise_large") or prog.get("final_value")))
     return out
 
 
